@@ -1,5 +1,7 @@
 import Fv.Lemmas.SyncMutexQuiet
 import Fv.Lemmas.SyncRwProps
+import Fv.Lemmas.SyncRwWakeT
+import Fv.Lemmas.SyncRwWakeW
 /-!
 # C10 — hybrid locks: mutual exclusion, wake on release, cancel-safe acquisition
 
@@ -22,6 +24,26 @@ Theorems here (helpers in `Fv/Lemmas/Sync*.lean`):
   state, whatever futures are dropped and whenever; every queued node belongs to a waiter that is
   still inside its acquisition (thread in `lock_slow`, or a live future whose node is allocated),
   so no wake ever touches a freed node; list critical sections exclude each other.
+
+HybridRwLock (`RwLock.Reach cfg s`, same conventions):
+* (a) `rwlock_mutual_exclusion`, `rwlock_reader_count`; (b) `rwlock_try_bounded`;
+* (c) `rwlock_no_lost_wakeup` — NO LOST WAKEUP, safety form: whenever the lock is free (no writer, no
+  reader) and the queue is non-empty, a `wake_waiters` is in flight (a releaser that read
+  `HAS_QUEUED`, or a dropping `WOKEN` future before its forwarding call), or a covering node is
+  queued: a writer node (any node if no writer is queued) that is `WOKEN` with an awake owner / an
+  undelivered handle, or whose owner is in its own acquisition / re-check phase;
+  `rwlock_blocked_waiter_covered` — the node of every blocked waiter is queued, or `WOKEN` with its
+  handle in flight, or unlinked by a waker that is about to mark it; `rwlock_woken_node_accounted`
+  (wake conservation, also for reader nodes the waker has already unlinked);
+  `rwlock_drop_woken_forwards`; corollary `rwlock_quiescent_no_blocked_waiter`;
+* (d) `rwlock_list_wf`, `rwlock_queued_node_has_live_owner`;
+* (e) writer preference: `rwlock_writer_pending_iff_writer_queued`, `rwlock_has_queued_iff_nonempty`
+  (no list critical section open), `rwlock_reader_cas_needs_flag_clear`, `rwlock_writer_gate`, and,
+  in EVERY reachable state, `rwlock_writer_queued_pending` (a queued writer node implies
+  `WRITER_PENDING`, except during the one step between that writer's `link_back` and its
+  `fetch_or`) and `rwlock_writer_preference` (hence no read-acquiring CAS succeeds meanwhile).
+The wake invariant `RwLock.WInv` (14 conjuncts, `Fv/Lemmas/SyncRwWake*.lean`) is inductive:
+`RwLock.WInv_reach`.
 -/
 namespace Fv.Props.C10
 open Fv.Sync
@@ -393,6 +415,186 @@ theorem rwlock_writer_gate {cfg : RwLock.Cfg} {s s' : RwLock.State} {t : Tid} {l
 theorem rwlock_has_queued_iff_nonempty {cfg : RwLock.Cfg} {s : RwLock.State}
     (hr : RwLock.Reach cfg s) (hl : s.wl.locked = false) : s.word.hq = true ↔ s.wl.queue ≠ [] :=
   RwLock.hq_iff_nonempty hr hl
+
+
+/-! ### (c) no lost wakeup, wake conservation, cancel safety -/
+
+/-- (c) NO LOST WAKEUP (safety form).  In every reachable state in which the lock is free (no
+writer, no reader) and the wait queue is non-empty,
+* some thread is inside a `wake_waiters` that may still mark queued nodes - it released the lock by
+  the `fetch_and` / last `fetch_sub` that read `HAS_QUEUED`, or it is dropping a future whose node
+  is `WOKEN` and has not yet made the forwarding call (`PreWake`); or
+* a covering node `n` is queued: `n` is a writer node, or no writer is queued at all (this is
+  what `wake_waiters` would pick: the first writer, else everybody), and
+  - `n` is `WOKEN` and its owner is not blocked (awake thread / token present / wake recorded /
+    being polled), or the handle that unblocks it is still carried by the waker (`PostWake`); or
+  - the owner of `n` is itself in its acquisition / arm-and-re-check phase (`OwnerActive`).
+Each of these threads has an enabled step, so a wake is always owed; a reader parked behind a queued
+writer is woken by that writer's release (or by the drop of its future, see below). -/
+theorem rwlock_no_lost_wakeup {cfg : RwLock.Cfg} {s : RwLock.State} (hr : RwLock.Reach cfg s)
+    (hfree : s.word.wl = false ∧ s.word.readers = 0) (hq : s.wl.queue ≠ []) :
+    (∃ t, RwLock.PreWake s t)
+    ∨ ∃ n ∈ s.wl.queue,
+        ((s.wl.node n).isWriter = true ∨ ∀ m ∈ s.wl.queue, (s.wl.node m).isWriter = false)
+        ∧ (((s.wl.node n).woken = true ∧ (¬ RwLock.OwnerBlocked s n ∨ ∃ t, RwLock.PostWake s t n))
+            ∨ RwLock.OwnerActive s n) :=
+  RwLock.no_lost_wakeup hr hfree hq
+
+/-- (c) every blocked waiter is covered, in every reachable state: the node of a thread parked
+without a token (sync waiter or `block_on` executor), resp. of a `Pending` manually polled future
+with no wake recorded, is still queued (then `rwlock_no_lost_wakeup` speaks about the queue once the
+lock is free), or it is `WOKEN` and the handle that unblocks the owner is carried by a waker about to
+deliver it, or a waker in the reader loop of `wake_waiters` has unlinked it and is about to mark it. -/
+theorem rwlock_blocked_waiter_covered {cfg : RwLock.Cfg} {s : RwLock.State} (hr : RwLock.Reach cfg s) :
+    (∀ u, RwLock.ParkedBlocked s u →
+      RwLock.me u (s.th u) ∈ s.wl.queue
+      ∨ ((s.wl.node (RwLock.me u (s.th u))).woken = true ∧ ∃ t, RwLock.PostWake s t (RwLock.me u (s.th u)))
+      ∨ RwLock.MarkPending s (RwLock.me u (s.th u)))
+    ∧ (∀ f, RwLock.PendingBlocked s f →
+      .fut f ∈ s.wl.queue
+      ∨ ((s.wl.node (.fut f)).woken = true ∧ ∃ t, RwLock.PostWake s t (.fut f))
+      ∨ RwLock.MarkPending s (.fut f)) :=
+  RwLock.blocked_waiter_covered hr
+
+/-- (c)/(d) WAKE CONSERVATION: a node marked `WOKEN` whose owner still exists (a stack node; a heap
+node while the future has it allocated) - a queued writer node, or a reader node the waker has
+already unlinked - is always accounted for: its owner is not blocked, or a waker still carries the
+handle that unblocks it. -/
+theorem rwlock_woken_node_accounted {cfg : RwLock.Cfg} {s : RwLock.State} (hr : RwLock.Reach cfg s) {n : Nid}
+    (hlive : match n with | .thr _ => True | .fut f => (s.fut f).phase = .startedNode)
+    (hwk : (s.wl.node n).woken = true) :
+    ¬ RwLock.OwnerBlocked s n ∨ ∃ t, RwLock.PostWake s t n := by
+  refine RwLock.woken_node_accounted hr ?_ hwk
+  cases n <;> exact hlive
+
+/-- (d) a Read/WriteFuture dropped while its node is `WOKEN` is, from the moment the drop starts
+until its forwarding `wake_waiters` has done its marking, a `PreWake` thread (so the wake it consumed
+keeps covering the queue, see `rwlock_no_lost_wakeup`); the step after its `state.load` enters
+`wake_waiters`. -/
+theorem rwlock_drop_woken_forwards {cfg : RwLock.Cfg} {s s' : RwLock.State} {t : Tid} {l : RwLock.Lbl}
+    (h : (l, s') ∈ RwLock.next cfg s t) (hpc : (s.th t).pc = .dLoad)
+    (hwk : (s.wl.node (.fut (RwLock.curF (s.th t)))).woken = true) :
+    (s'.th t).pc = .llSwap .wake ∧ RwLock.PreWake s' t :=
+  RwLock.drop_woken_forwards h hpc hwk
+
+/-- (c) corollary, QUIESCENT DEADLOCK FREEDOM: in a reachable state in which no thread can take a
+step (spurious park returns aside), the lock is free, and the executor has served every recorded
+wake (no idle Pending manual future has `wakes > 0`), nobody is waiting: the queue is empty, no
+thread is parked, no future is Pending. -/
+theorem rwlock_quiescent_no_blocked_waiter {cfg : RwLock.Cfg} {s : RwLock.State} (hr : RwLock.Reach cfg s)
+    (hq : RwLock.Quiescent cfg s) (hfree : s.word.wl = false ∧ s.word.readers = 0)
+    (hexec : ∀ g, (s.fut g).bo = false → (s.fut g).phase = .startedNode → (s.fut g).busy = false → s.wakes g = 0) :
+    s.wl.queue = [] ∧ (∀ u, ¬ RwLock.ParkedBlocked s u) ∧ (∀ f, ¬ RwLock.PendingBlocked s f) :=
+  RwLock.quiescent_no_blocked_waiter hr hq hfree hexec
+
+/-! ### (e) writer preference in every reachable state -/
+
+/-- (e) in EVERY reachable state (list critical sections open or not) a queued writer node implies
+that `WRITER_PENDING` is set - the only exception is the single step, under the list lock, between a
+writer's `link_back` and its own `fetch_or(HAS_QUEUED | WRITER_PENDING)`. -/
+theorem rwlock_writer_queued_pending {cfg : RwLock.Cfg} {s : RwLock.State} (hr : RwLock.Reach cfg s)
+    {n : Nid} (hn : n ∈ s.wl.queue) (hnw : (s.wl.node n).isWriter = true) :
+    s.word.wp = true ∨ ∃ t, (s.th t).pc = .qFetchOr ∧ (s.th t).wr = true :=
+  RwLock.writer_queued_pending hr hn hnw
+
+/-- (e) WRITER NON-STARVATION, safety form, without the "no critical section open" proviso of
+`rwlock_writer_gate`: while a writer node is queued no read-acquiring CAS succeeds (fast path, spin
+loop, poll, re-check under the list lock alike), outside that one-step window. -/
+theorem rwlock_writer_preference {cfg : RwLock.Cfg} {s s' : RwLock.State} {t : Tid} {l : RwLock.Lbl}
+    (hr : RwLock.Reach cfg s) {n : Nid} (hn : n ∈ s.wl.queue) (hnw : (s.wl.node n).isWriter = true)
+    (hwin : ∀ u, (s.th u).pc = .qFetchOr → (s.th u).wr = false)
+    (h : (l, s') ∈ RwLock.next cfg s t) (hw : (s.th t).wr = false)
+    {w : Bool} {old new : Nat} : l ≠ .cas .state w .acquire .relaxed old new true :=
+  RwLock.writer_preference hr hn hnw hwin h hw
+
+/-! ### non-vacuity -/
+
+/-- thread 0 takes and releases a read guard; thread 1 wants to write -/
+def progRwRel : Tid → List RwLock.ROp :=
+  fun u => if u = 0 then [.read, .unread] else if u = 1 then [.write] else []
+
+/-- thread 0 reads; thread 1 calls `write`, spins, queues its node, re-checks and parks; thread 0
+calls `unread`: its `fetch_sub` reads `readers = 1` and `HAS_QUEUED` -/
+def schedRwRel : List (Tid × Nat) := RwLock.schedGate ++ [(0,0),(0,0)]
+
+/-- … then thread 0 takes the list lock, marks the writer node (`wnStore`) and drops the guard; it
+now carries the handle `Thread(1)` -/
+def schedRwMarked : List (Tid × Nat) := schedRwRel ++ [(0,0),(0,0),(0,0)]
+
+theorem rwlock_exec_some {sched : List (Tid × Nat)}
+    (h : (RwLock.exec {} (RwLock.init progRwRel) sched).isSome = true) :
+    ∃ s, RwLock.exec {} (RwLock.init progRwRel) sched = some s ∧ RwLock.Reach {} s := by
+  cases he : RwLock.exec {} (RwLock.init progRwRel) sched with
+  | none => rw [he] at h; cases h
+  | some s => exact ⟨s, rfl, execOf_reach _ _ _ (ReachOf.init ⟨progRwRel, rfl⟩) he⟩
+
+/-- the hypotheses of `rwlock_no_lost_wakeup` / `rwlock_blocked_waiter_covered` are satisfiable:
+the lock is free, the writer of thread 1 is queued and parked without a token, thread 0 is on its
+way into `wake_waiters` -/
+theorem rwlock_nlw_hypotheses_reachable :
+    ∃ s, RwLock.Reach {} s ∧ (s.word.wl = false ∧ s.word.readers = 0) ∧ s.wl.queue = [.thr 1]
+      ∧ RwLock.ParkedBlocked s 1 ∧ RwLock.PreWake s 0 := by
+  obtain ⟨s, hs, hr⟩ := rwlock_exec_some (sched := schedRwRel) (by decide)
+  refine ⟨s, hr, ?_⟩
+  have h1 : ((RwLock.exec {} (RwLock.init progRwRel) schedRwRel).map fun s =>
+      (s.word.wl, s.word.readers, s.wl.queue, (s.th 1).pc, s.token 1, (s.th 0).pc))
+      = some (false, 0, [.thr 1], .wPark, false, .llSwap .wake) := by decide
+  rw [hs] at h1
+  simp only [Option.map_some, Option.some.injEq, Prod.mk.injEq] at h1
+  obtain ⟨a, b, c, d, e, f⟩ := h1
+  exact ⟨⟨a, b⟩, c, ⟨Or.inl d, e⟩, Or.inl (by rw [f]; rfl)⟩
+
+/-- a marked node with a blocked owner: the lock is free, the writer node of thread 1 is queued and
+`WOKEN`, thread 1 is still parked without a token, thread 0 carries the handle -/
+theorem rwlock_marked_state_reachable :
+    ∃ s, RwLock.Reach {} s ∧ (s.word.wl = false ∧ s.word.readers = 0) ∧ s.wl.queue = [.thr 1]
+      ∧ (s.wl.node (.thr 1)).woken = true ∧ (s.wl.node (.thr 1)).isWriter = true
+      ∧ RwLock.OwnerBlocked s (.thr 1) ∧ RwLock.PostWake s 0 (.thr 1) := by
+  obtain ⟨s, hs, hr⟩ := rwlock_exec_some (sched := schedRwMarked) (by decide)
+  refine ⟨s, hr, ?_⟩
+  have h1 : ((RwLock.exec {} (RwLock.init progRwRel) schedRwMarked).map fun s =>
+      (s.word.wl, s.word.readers, s.wl.queue, (s.th 1).pc, s.token 1, (s.th 0).pc))
+      = some (false, 0, [.thr 1], .wPark, false, .wnWake) := by decide
+  have h2 : ((RwLock.exec {} (RwLock.init progRwRel) schedRwMarked).map fun s =>
+      ((s.wl.node (.thr 1)).woken, (s.wl.node (.thr 1)).isWriter, (s.th 0).ws))
+      = some (true, true, [.thread 1]) := by decide
+  rw [hs] at h1 h2
+  simp only [Option.map_some, Option.some.injEq, Prod.mk.injEq] at h1 h2
+  obtain ⟨a, b, c, d, e, f⟩ := h1
+  obtain ⟨g, i, j⟩ := h2
+  exact ⟨⟨a, b⟩, c, g, i, ⟨d, e⟩, by rw [f]; rfl, .thread 1, by rw [j]; simp, rfl⟩
+
+example : ∃ s, RwLock.Reach {} s ∧ (∃ t, RwLock.PreWake s t) := by
+  obtain ⟨s, hr, _, _, _, hp⟩ := rwlock_nlw_hypotheses_reachable
+  exact ⟨s, hr, 0, hp⟩
+
+/-- in the marked state the conclusion of `rwlock_no_lost_wakeup` holds through its second
+disjunct's `WOKEN` branch with the handle in flight -/
+example : ∃ s n, RwLock.Reach {} s ∧ n ∈ s.wl.queue ∧ (s.wl.node n).woken = true
+    ∧ (¬ RwLock.OwnerBlocked s n ∨ ∃ t, RwLock.PostWake s t n) := by
+  obtain ⟨s, hr, _, hq, hwk, _, _, _⟩ := rwlock_marked_state_reachable
+  exact ⟨s, .thr 1, hr, by rw [hq]; simp, hwk, rwlock_woken_node_accounted hr trivial hwk⟩
+
+/-- `rwlock_blocked_waiter_covered` is not vacuous: thread 1 is `ParkedBlocked` -/
+example : ∃ s, RwLock.Reach {} s ∧ RwLock.ParkedBlocked s 1 ∧ s.wl.queue ≠ [] := by
+  obtain ⟨s, hr, _, hq, hb, _⟩ := rwlock_nlw_hypotheses_reachable
+  exact ⟨s, hr, hb, by rw [hq]; simp⟩
+
+/-- the state in which every program has ended is quiescent (and satisfies the corollary's hypotheses) -/
+example : RwLock.Reach {} (RwLock.init fun _ => []) ∧ RwLock.Quiescent {} (RwLock.init fun _ => [])
+    ∧ (RwLock.init fun _ => []).word.wl = false ∧ (RwLock.init fun _ => []).word.readers = 0 :=
+  ⟨ReachOf.init ⟨_, rfl⟩, by intro t l s' h; simp [RwLock.next, RwLock.init, RwLock.nIdle] at h, rfl, rfl⟩
+
+/-- the hypotheses of `rwlock_writer_queued_pending` / `rwlock_writer_preference` are satisfiable,
+with a reader (thread 2) about to step: the parked writer of `RwLock.gate_state_reachable` -/
+example : ∃ s n, RwLock.Reach {} s ∧ n ∈ s.wl.queue ∧ (s.wl.node n).isWriter = true
+    ∧ (∀ u, (s.th u).pc = .qFetchOr → (s.th u).wr = false) ∧ s.word.wp = true
+    ∧ (RwLock.next {} s 2).length = 1 := by
+  obtain ⟨s, hr, h1, h2, _, _, h5, h6, _, _, h9⟩ := RwLock.gate_state_reachable
+  refine ⟨s, .thr 1, hr, by rw [h5]; simp, h6, ?_, h2, h9⟩
+  intro u hu
+  have := ((RwLock.Inv_reach hr).ll u (by rw [hu]; rfl)).1
+  rw [h1] at this; cases this
 
 end RwLockTheorems
 
